@@ -670,6 +670,58 @@ func (e *specEnv) call(n *ast.CallExpr) SV {
 			return SV{V: TV{SBool, fmt.Sprintf("(forall ((%s Int)) %s)", bv, tImp(rng, body))}}
 		}
 		return SV{V: TV{SBool, fmt.Sprintf("(exists ((%s Int)) %s)", bv, tAnd(rng, body))}}
+	case "existsref":
+		// existsref(a, T, body): some object of struct type T (of the unit's package) allocated by
+		// now satisfies body; a is bound to a non-nil *T
+		id, ok := n.Args[0].(*ast.Ident)
+		tid, ok2 := n.Args[1].(*ast.Ident)
+		qual := ""
+		if sel, isSel := n.Args[1].(*ast.SelectorExpr); isSel { // pkg.T of an imported package
+			if q, isId := sel.X.(*ast.Ident); isId {
+				qual, tid, ok2 = q.Name, sel.Sel, true
+			}
+		}
+		if !ok || !ok2 || len(n.Args) != 3 {
+			return e.fail("existsref(a, T, body)")
+		}
+		var pkg *types.Package
+		if e.fr != nil && e.fr.fn != nil && e.fr.fn.Pkg != nil {
+			pkg = e.fr.fn.Pkg.Pkg
+		} else if e.x.unit != nil && e.x.unit.Pkg != nil {
+			pkg = e.x.unit.Pkg.Pkg
+		}
+		var obj types.Object
+		if pkg != nil && qual != "" {
+			for _, imp := range pkg.Imports() {
+				if imp.Name() == qual {
+					obj = imp.Scope().Lookup(tid.Name)
+				}
+			}
+		} else if pkg != nil {
+			obj = pkg.Scope().Lookup(tid.Name)
+			if obj == nil && e.x.unit != nil && e.x.unit.Pkg != nil {
+				obj = e.x.unit.Pkg.Pkg.Scope().Lookup(tid.Name)
+			}
+		}
+		tn, isT := obj.(*types.TypeName)
+		if !isT || !isStructLike(tn.Type()) {
+			return e.fail("existsref: %s is not a struct type of the package", tid.Name)
+		}
+		e.x.freshN++
+		bv := fmt.Sprintf("q_%s_%d", id.Name, e.x.freshN)
+		saved, had := e.binds[id.Name]
+		if e.binds == nil {
+			e.binds = map[string]SV{}
+		}
+		sort := e.x.w.SortOf(tn.Type())
+		e.binds[id.Name] = SV{V: PtrV{Ref: bv, RootSort: sort, Elem: tn.Type()}, T: types.NewPointer(tn.Type())}
+		body := e.boolOf(e.eval(n.Args[2]))
+		if had {
+			e.binds[id.Name] = saved
+		} else {
+			delete(e.binds, id.Name)
+		}
+		return SV{V: TV{SBool, fmt.Sprintf("(exists ((%s Int)) %s)", bv, tAnd(tCmp("<", "0", bv), tCmp("<", bv, e.st.top), body))}}
 	case "is": // is(err, target): errors.Is class test
 		a := arg(0)
 		b := arg(1)
@@ -809,7 +861,8 @@ func (x *Exec) ghostSeq(st *State, v Val, kind string) (string, bool) {
 			case "bytes.Buffer":
 				d := x.w.DTByName(u.RootSort)
 				return d.Get(0, st.heapSelect(u.RootSort, u.Ref)), true
-			case "bytes.Reader":
+			case "bytes.Reader", "io.SectionReader":
+				// content (for a section: the bytes of the section) from the read position on
 				d := x.w.DTByName(u.RootSort)
 				o := st.heapSelect(u.RootSort, u.Ref)
 				s := d.Get(0, o)
